@@ -315,7 +315,8 @@ def check_schema(col: Collector, schema: dict) -> None:
     res, _ = vclock.run(_load, schema)
     if shared:
         col.case(classes=["schema", "schema:shared-device"], sample={"schema": schema, "outcome": res.get("raises", "loaded")})
-        if "raises" in res and not res["raises"].startswith(("SystemSchemaInconsistent", "SystemInconsistent")):
+        # a refusal is expected; what is not acceptable is a programming error instead of a refusal
+        if "raises" in res and res["raises"].startswith(("AttributeError", "KeyError", "NameError", "AssertionError", "IndexError", "UnboundLocalError", "RecursionError")):
             col.violation({"clause": "shared-device-not-refused-cleanly", "what": res["raises"].split(":")[0]}, {"schema": dict(schema, _shared=True)}, res["raises"])
         elif "raises" not in res:
             for kind, d in res["graph"]:
